@@ -495,7 +495,7 @@ func init() {
 		Rule:   "raw peer sends SUBSCRIBE/UNSUBSCRIBE (all topic-id types, QoS 0-2, DUP), PUBREL, PINGREQ, DISCONNECT, QoS 2 publishes; the broker answers SUBACK with scripted codes {0,1,2,0x80} independent of the requested QoS; one translated packet per input with equal id/filter/QoS; SUBACK accept/QoS/topic-id rules; non-trivial = at least one control packet translated or SUBACK judged",
 		Gen:    genC03, Oracle: oracleC03, Quick: 1500, Thorough: 120000})
 	Register(&Check{ID: "C04", Level: "exploration",
-		Rule:   "long REGISTER/SUBSCRIBE/broker-publish sequences; id space shrunk to 3..40 ids through the MaxTopicAlias seam (real 0xFFFE range every 2000th thorough run, 65534+ registrations); ids seen in REGACK/SUBACK/gateway REGISTER must be in range, never a predefined id visible to that client, and id->name must stay a function also after exhaustion; non-trivial = >= 3 allocations",
+		Rule:   "long REGISTER/SUBSCRIBE/broker-publish sequences; id space shrunk to 3..40 ids through the MaxTopicAlias seam (real 0xFFFE range every 2000th thorough run, 65534+ registrations); every fourth shrunk plan puts the predefined ids at the top of the range and lets a client REGISTER and a broker PUBLISH on a new topic arrive at the same virtual instant (equal fixed link latencies) around the wrap; ids seen in REGACK/SUBACK/gateway REGISTER must be in range, never a predefined id visible to that client, and id->name must stay a function also after exhaustion; non-trivial = >= 3 allocations",
 		Gen:    genC04, Oracle: oracleC04, Quick: 500, Thorough: 20000,
 		Assumptions: []string{"shrunken-space runs replace the constant packets.MaxTopicAlias by a smaller value through the build overlay; the range rule is checked against the real bound 0xFFFE"}})
 }
